@@ -8,7 +8,7 @@ use crate::stats::{Stats, C};
 use crate::stubs::*;
 use crate::values::*;
 use nodejs_semver::{Range, Version};
-use serde::de::value::{BorrowedStrDeserializer, Error as ValueError, SeqDeserializer};
+use serde::de::value::{BorrowedStrDeserializer, Error as ValueError};
 use serde::de::{DeserializeOwned, IntoDeserializer};
 use serde::{Deserialize, Serialize};
 use std::cell::RefCell;
@@ -991,6 +991,7 @@ where
 
     // ---- P: printing into a failing formatter sink -----------------------------------------------
     let mut fmt_faults = 0usize;
+    let mut sink_panicked_in_p = false;
     let mut reentered = 0usize;
     let mut counts = Counts::default();
     {
@@ -1025,12 +1026,16 @@ where
             Ok::<(), fmt::Error>(())
         });
         fmt_faults = sink.failed;
+        sink_panicked_in_p = sink.panicked;
         reentered += sink.reentered;
         for e in sink.nested_errors.drain(..) {
             viols.push(viol("N1-reentrant-print-wrong", e, nested.as_ref().map(|n| n.1.as_str())));
         }
         counts.fmt_calls = sink.calls;
         match res {
+            // the sink itself panicked on purpose and the caller caught it: nothing to check about
+            // this call; what matters is that the thread can go on printing afterwards
+            Err(p) if sink.panicked && p.contains(SINK_PANIC) => {}
             Err(p) => viols.push(viol(
                 "P-panic",
                 format!("printing into a formatter sink panicked: {}", p),
@@ -1182,7 +1187,11 @@ where
             let t_in_ser = shim.terminal_errors;
             let after = shim.writes_after_terminal;
             let flush = match &ser {
-                Ok(Ok(())) => Some(shim.flush().map_err(|e| e.to_string())),
+                // (the flush may meet an injected sink panic: the caller catches it, not acknowledged)
+                Ok(Ok(())) => Some(match guarded(|| shim.flush().map_err(|e| e.to_string())) {
+                    Ok(r) => r,
+                    Err(p) => Err(p),
+                }),
                 _ => None,
             };
             (
@@ -1206,7 +1215,8 @@ where
                 let (o, bw) = drive(bw, &j, pretty, &recser);
                 // a real process drops its BufWriter here: one more flush attempt, errors ignored
                 let had_sticky = bw.get_ref().ctl.sticky;
-                drop(bw);
+                // (the flush attempt may itself meet an injected sink panic)
+                let _ = guarded(move || drop(bw));
                 if had_sticky {
                     sw.stats.inc(C::probe_sticky_then_bufwriter_drop);
                 }
@@ -1217,6 +1227,7 @@ where
     let crashed = disk.crashed;
     let acked = matches!(wout.ser, Ok(Ok(()))) && matches!(wout.flush, Some(Ok(()))) && !crashed;
     match &wout.ser {
+        Err(p) if wctl.sink_panicked && p.contains(SINK_PANIC) => {}
         Err(p) => viols.push(viol(
             "W-panic",
             format!("serialising panicked: {}", p),
@@ -1329,7 +1340,7 @@ where
     counts.record_len = j.len();
 
     // after the faulty sinks: the instance that went through them still prints its own text
-    if fresh.is_some() {
+    if fresh.is_some() || sink_panicked_in_p || wctl.sink_panicked {
         for (b, want) in wrec.items().iter().zip(&printed) {
             match guarded(|| b.item.to_string()) {
                 Ok(s) if s == *want => {}
